@@ -86,19 +86,41 @@ theorem no_signal_after_exit (p : Params) (hw : p.watcher = true) (evs : List Ev
   simp only [Bool.and_eq_true] at this
   exact this.2
 
-/-- a command that exits ends the runner whatever else happened (no event sequence keeps a
-finished, drained command's runner from returning) -/
-theorem exit_returns (p : Params) (evs : List Ev) :
-    (run p (evs ++ [.exit])).phase = .returned ∨ (run p evs).phase = .returned ∨
-      (run p (evs ++ [.exit])).alive = false := by
+/-- second certificate, for every parameter combination (the pinned runner included): in every reachable state, the exit
+of the whole process group makes the runner return; and while children of an exited shell hold the output the runner does
+not return (it returns when they close it) -/
+theorem certificate_exit :
+    allParams.all (fun p =>
+      closed p (reachable p) && (reachable p).all fun s =>
+        (step p s .exit).phase == .returned &&
+        (!(s.orphans && s.pipe) || s.phase != .returned)) = true := by
+  decide +kernel
+
+/-- **a command that exits ends the runner, whatever else happened before**: no event sequence keeps the runner of a
+command whose whole process group is gone from returning -/
+theorem exit_returns (p : Params) (evs : List Ev) : (run p (evs ++ [.exit])).phase = .returned := by
+  have h := List.all_eq_true.mp certificate_exit p (params_complete p)
+  have := inv_of_closed p _ h evs
+  simp only [Bool.and_eq_true, beq_iff_eq] at this
   simp only [run, List.foldl_append, List.foldl_cons, List.foldl_nil]
-  generalize evs.foldl (step p) {} = s
-  by_cases h : s.phase = .returned
-  · right; left; exact h
-  · right; right
-    obtain ⟨ph, al, pi, it, hu, ki, st, ca, te, gr, la⟩ := s
-    cases al <;> simp_all [step, watch, maybeReturn, sendHup, sendKill]
-    all_goals (repeat' split) <;> simp_all
+  exact this.1
+
+/-- … whereas a shell that exits while children it left in the background hold its output does not: the runner goes on
+reading (and, since bfee10c, signals those children when it is asked to stop: `interrupt_reaches_group` counts them) -/
+theorem orphans_keep_the_runner (p : Params) (evs : List Ev)
+    (h : (run p evs).orphans = true ∧ (run p evs).pipe = true) : (run p evs).phase ≠ .returned := by
+  have hc := List.all_eq_true.mp certificate_exit p (params_complete p)
+  have := inv_of_closed p _ hc evs
+  simp only [Bool.and_eq_true, Bool.or_eq_true, Bool.not_eq_true', bne_iff_ne, ne_eq, Bool.and_eq_false_iff] at this
+  rcases this.2 with h' | h'
+  · rcases h' with h' | h'
+    · rw [h.1] at h'; cases h'
+    · rw [h.2] at h'; cases h'
+  · exact h'
+
+example : (run ⟨true, true, true⟩ [.exitKeep]).orphans = true ∧ (run ⟨true, true, true⟩ [.exitKeep]).phase = .reading ∧
+    (run ⟨true, true, true⟩ [.exitKeep, .term]).hup = true ∧
+    (run ⟨true, true, true⟩ [.exitKeep, .term, .eof]).phase = .returned := by decide
 
 /-- **The pinned code violated the property**: an action or cleanup script redirects its own
 output (`exec >>x.log`), the pipe reaches EOF, the runner leaves both loops with
